@@ -312,11 +312,20 @@ Section Commit.
   Definition job := (path * option fh * cause)%type.
   Definition job_effective (j : job) : bool :=
     let '(p, old, c) := j in negb (ofh_eqb (hash_fs p) old) || cause_eqb c HC_CONFIRMED.
+  (* Executor._is_stale_confirmation, evaluated inside the applying transaction (on the current state) *)
+  Definition stale_confirmation (g : gstate) (p : path) (c : cause) : bool :=
+    stale_confirmation_guard && cause_eqb c HC_CONFIRMED &&
+    match find_file (g_files g) p with
+    | None => true
+    | Some f => negb (mem_fstate (f_state f) confirmation_states)
+    end.
   Definition run_job (og : option gstate) (j : job) : option gstate :=
     match og with
     | None => None
     | Some g => let '(p, old, c) := j in
-                if job_effective j then apply_hash g p c (hash_fs p) else Some g
+                if job_effective j
+                then (if stale_confirmation g p c then Some g else apply_hash g p c (hash_fs p))
+                else Some g
     end.
   Definition run_jobs (jobs : list job) (g : gstate) : option gstate := fold_left run_job jobs (Some g).
 
